@@ -576,6 +576,12 @@ func reifyMergeValue(
 		return old, nil
 	}
 
+	if baseType == tRegexp {
+		// a compiled expression is a value like a number or a duration: what the field
+		// holds already is overwritten, not merged into
+		return reifyPrimitive(opts, val, t, baseType)
+	}
+
 	switch baseType.Kind() {
 	case reflect.Map:
 		sub, err := val.toConfig(opts.opts)
